@@ -77,6 +77,7 @@ type c12Obs struct {
 	Panics  int      `json:"panics,omitempty"`
 	Harness bool     `json:"harness_race,omitempty"`
 	Missing []string `json:"missing,omitempty"`
+	Report  string   `json:"report,omitempty"` // head of the first race report
 }
 
 const c12NoField = 999
@@ -108,7 +109,7 @@ func c12LoadTable(c *Ctx) (*c12Table, error) {
 	must(os.WriteFile(src, []byte(
 		"From Coq Require Import List String.\n"+
 			"From AMV Require Import Conc.Locks Spec.C12 Run.EvalC12.\n"+
-			"Set Printing Width 10000000.\nSet Printing Depth 10000000.\n"+
+			"Import ListNotations.\nSet Printing Width 10000000.\nSet Printing Depth 10000000.\n"+
 			"Eval vm_compute in (0, dump_footprints).\n"+
 			"Eval vm_compute in (1, field_idents).\n"+
 			"Eval vm_compute in (2, culprits).\n"), 0o644))
@@ -891,11 +892,19 @@ func c12Run(c *Ctx, t *c12Table, in *C12Input) *c12Obs {
 	switch {
 	case strings.Contains(se, "WARNING: DATA RACE"):
 		obs.Raced = true
+		if k := strings.Index(se, "WARNING: DATA RACE"); k >= 0 {
+			obs.Report = se[k:min(len(se), k+2500)]
+		}
 		blocks := c12ParseReport(se)
 		var fs []map[int]bool
+		nHarness := 0
 		for i, b := range blocks {
 			f, at, harness := t.attribute(b)
-			obs.Harness = obs.Harness || harness
+			if harness {
+				// user data handed to the library (e.g. the Serialized passed
+				// to Import): attribute by the other side
+				nHarness++
+			}
 			if i == 0 {
 				obs.At1, obs.M1 = at, c12Blame(b)
 			} else {
@@ -903,6 +912,7 @@ func c12Run(c *Ctx, t *c12Table, in *C12Input) *c12Obs {
 			}
 			fs = append(fs, f)
 		}
+		obs.Harness = nHarness == len(blocks) && nHarness > 0
 		obs.Field = c12PickField(fs)
 		// the Subscriptions of a NetworkMachine live in pkg/machine: move the
 		// field to the NetworkMachine's own instance
@@ -1236,6 +1246,7 @@ func runC12(c *Ctx) error {
 		}
 		if obs.Harness {
 			harnessRaces++
+			fmt.Fprintf(os.Stderr, "harness race in %v:\n%s\n", in.Threads, obs.Report)
 		}
 		panics += obs.Panics
 		out.Add(j.kind, in, obs, c12Coq(in, obs), false, "")
